@@ -180,7 +180,7 @@ class RouterAnalysis:
             if not self_recursive(f):
                 self.add('RT.3', None, f'{short}: traversal', f.shortloc(), 'Node::notify does not descend by calling itself (explicit stack / loop): the per-level table is not applicable'); continue
             for matches, leaf, has_subject, regex, found in itertools.product([True, False], repeat=5):
-                if not matches and (leaf or has_subject or regex or found): continue
+                # a non-matching node must be skipped whatever else holds: all the other atoms stay free in those rows
                 if leaf and (regex or found): continue
                 if not leaf and has_subject: continue
                 if regex and found: continue
@@ -459,7 +459,6 @@ class RouterAnalysis:
         else:
             any_prune = False
             for matches, leaf, regex, found in itertools.product([True, False], repeat=4):
-                if not matches and (leaf or regex or found): continue
                 if leaf and (regex or found): continue
                 if regex and found: continue
                 dom = RouterDomain(dict(matches=matches, leaf=leaf, regex=regex, found=found, child_empty=True))
@@ -511,7 +510,6 @@ class RouterAnalysis:
             self.add('SH.4', None, 'exists traversal', exf.shortloc(), 'Node::exists does not descend by calling itself: the per-level table is not applicable')
         elif exf is not None:
             for matches, leaf, regex, found, ce, che in itertools.product([True, False], repeat=6):
-                if not matches and (leaf or regex or found): continue
                 if leaf and (regex or found): continue
                 if regex and found: continue
                 if not regex and che: continue
